@@ -393,6 +393,17 @@ Theorem C15_ping_agrees :
 Proof. exact ping_spec. Qed.
 Print Assumptions C15_ping_agrees.
 
+(* the code before fix 635f618 (mk_request_prefix): with a page size configured, a link
+   parameter that url.ParseQuery rejects -- here the registry's cursor token=p;b -- is lost *)
+Theorem C15_lossy_query_refuted :
+  let link := mkUrl (b "/v2/r/tags/list") [(b "token", VS (b "p;b")); (b "x", VS (b "1"))] in
+  let cu := CToken (b "token") (b "p;") in
+  cursor_read cu (u_query (mk_request_prefix wit_parses (mkCfg KTags 2 0 []) link [])) = [] /\
+  cursor_read cu (u_query (mk_request (mkCfg KTags 2 0 []) link [])) = b "b" /\
+  mk_request_prefix wit_parses (mkCfg KTags 0 0 []) link [] = link.
+Proof. exact lossy_query_refuted. Qed.
+Print Assumptions C15_lossy_query_refuted.
+
 (* ---------- several link-values / Link lines ---------- *)
 
 (* Only the first Link line is read (rs_link = hd), and of it the first "<...>"
